@@ -9,12 +9,16 @@
           rule before the repair needs exponentially many steps, the repaired one linearly many, and
           the repaired rule computes what the hand-written lexer `lexString` computes.
   Part 4: the parser's loops consume a token per iteration: the fuel never runs out.
+  Part 6: the regexes of part 3 are what tokeniser.py contains today (`Generated.tokenRules` parsed by
+          `c07_parseRegex`); every rule is linear; the tokeniser run with these regexes is `tokenise`,
+          and all its match attempts together cost at most 48 steps per character.
 -/
 import Proofs.C07_StyleMap
 import Proofs.C07_Regex
 import Proofs.C07_Parser
 import Proofs.C07_RegexIdent
 import Proofs.C07_RegexDet
+import Proofs.C07_RegexParseCost
 namespace Mammoth
 
 /-! ## 1. the tokeniser is total -/
@@ -308,5 +312,201 @@ example : c07_identRule.exec S!"a\\.b-9 x" = (28, some S!" x") := by decide
 example : strip S!" q => oops " ≠ [] ∧ startsWith (strip S!" q => oops ") ['#'] = false ∧
     readStyleMapping (strip S!" q => oops ") = none := by decide
 example : startsWith (strip S!"  # note") ['#'] = true := by decide
+
+/-! ## 6. the regexes of section 3 are the ones tokeniser.py contains today
+
+  `Generated.tokenRules` holds the SOURCE TEXT of the tokeniser's regular expressions; gen/extract.py
+  regenerates it from mammoth/styles/parser/tokeniser.py on every run.  `c07_parseRegex`
+  (MammothModel/RegexParse.lean) reads such a text into a value of the cost model.  The theorems
+  below are closed computations on the generated table: editing a regex in tokeniser.py changes
+  the table, and the theorem about that rule stops checking. -/
+
+/-- `regex_tokeniser` tries exactly these seven rules, in this order (the first rule that matches
+    wins, so the order is part of the behaviour). -/
+theorem C07_generated_rule_names :
+    Generated.tokenRules.map (·.1) =
+      [S!"identifier", S!"symbol", S!"whitespace", S!"string", S!"unterminated string",
+       S!"integer", S!"unknown"] := by decide
+
+/-- the IDENTIFIER regex of the source is the value `c07_identRule` of `C07_model_agrees_ident` -/
+theorem C07_generated_identifier_rule :
+    (List.lookup S!"identifier" Generated.tokenRules).bind c07_parseRegex = some c07_identRule := by
+  decide
+
+/-- the SYMBOL regex of the source is `c07_symbolRule` -/
+theorem C07_generated_symbol_rule :
+    (List.lookup S!"symbol" Generated.tokenRules).bind c07_parseRegex = some c07_symbolRule := by
+  decide
+
+/-- the WHITESPACE regex of the source is `c07_wsRule` (`\s+`) -/
+theorem C07_generated_whitespace_rule :
+    (List.lookup S!"whitespace" Generated.tokenRules).bind c07_parseRegex = some c07_wsRule := by
+  decide
+
+/-- the STRING regex of the source is the REPAIRED rule `c07_stringRuleNew` of `C07_new_rule_linear`
+    and `C07_model_agrees` (with the regex before the repair this is false: see
+    `C07_old_rule_source`) -/
+theorem C07_generated_string_rule :
+    (List.lookup S!"string" Generated.tokenRules).bind c07_parseRegex = some c07_stringRuleNew := by
+  decide
+
+/-- the UNTERMINATED_STRING regex of the source is `c07_unterminatedRule` -/
+theorem C07_generated_unterminated_string_rule :
+    (List.lookup S!"unterminated string" Generated.tokenRules).bind c07_parseRegex =
+      some c07_unterminatedRule := by
+  decide
+
+/-- the INTEGER regex of the source is `c07_intRule` (the capturing group costs nothing) -/
+theorem C07_generated_integer_rule :
+    (List.lookup S!"integer" Generated.tokenRules).bind c07_parseRegex = some c07_intRule := by
+  decide
+
+/-- the catch-all rule that `regex_tokeniser` appends is `.` -/
+theorem C07_generated_unknown_rule :
+    (List.lookup S!"unknown" Generated.tokenRules).bind c07_parseRegex = some c07_unknownRule := by
+  decide
+
+/-- all seven together, with their token types, as the list the regex-driven tokeniser runs -/
+theorem C07_generated_rules : c07_rxRules = some c07_handRules := by
+  decide
+
+/-- the text of the STRING rule before the repair parses to `c07_stringRuleOld`, the value of
+    `C07_old_rule_exponential`; it is a different value from today's rule -/
+theorem C07_old_rule_source :
+    c07_parseRegex S!"'(?:\\\\.|[^'])*'" = some c07_stringRuleOld ∧
+    c07_stringRuleOld ≠ c07_stringRuleNew := by
+  decide
+
+/-- `\s` of the parser is the white-space set `isSpace` (`str.isspace`) of the model -/
+theorem C07_whitespace_class (c : Char) : c07_ccSpace.test c = isSpace c :=
+  c07_wsRanges_isSpace c
+
+/-! ### every rule, on every input: at most linearly many steps -/
+
+/-- GENERAL: an expression without repetition costs a constant (`c07_flatBound r 0`), whatever the
+    input. -/
+theorem C07_repetition_free_constant (r : C07Regex) (h : c07_starFree r = true) (s : Str) :
+    r.steps s ≤ c07_flatBound r 0 :=
+  c07_flat_steps r h s
+
+/-- SYMBOL `:|>|=>|\^=|=|\(|\)|\[|\]|\||!|\.` : at most 25 steps on ANY input, and it leaves what
+    `lexSymbol` leaves (fails exactly when `lexSymbol` fails). -/
+theorem C07_model_agrees_symbol (s : Str) :
+    c07_symbolRule.steps s ≤ 25 * (s.length + 1) ∧
+    c07_symbolRule.steps s ≤ 25 ∧
+    (c07_symbolRule.exec s).2 = (lexSymbol s).map (·.2) := by
+  have := c07_symbol_steps s
+  refine ⟨?_, this, c07_symbol_result s⟩
+  have : 25 ≤ 25 * (s.length + 1) := Nat.le_mul_of_pos_right _ (by omega)
+  omega
+
+/-- WHITESPACE `\s+` : at most `2 * (length + 1)` steps, leaves what `lexWs` leaves. -/
+theorem C07_model_agrees_whitespace (s : Str) :
+    c07_wsRule.steps s ≤ 2 * (s.length + 1) ∧
+    (c07_wsRule.exec s).2 = (lexWs s).map (·.2) := by
+  have := c07_ws_agrees s
+  exact ⟨by omega, this.2⟩
+
+/-- INTEGER `([0-9]+)` : at most `2 * (length + 1)` steps, leaves what `lexInt` leaves. -/
+theorem C07_model_agrees_integer (s : Str) :
+    c07_intRule.steps s ≤ 2 * (s.length + 1) ∧
+    (c07_intRule.exec s).2 = (lexInt s).map (·.2) := by
+  have := c07_int_agrees s
+  exact ⟨by omega, this.2⟩
+
+/-- the catch-all `.` : one step; matches one character unless it is a newline. -/
+theorem C07_model_agrees_unknown (s : Str) :
+    c07_unknownRule.steps s = 1 ∧ c07_unknownRule.steps s ≤ 1 * (s.length + 1) ∧
+    (c07_unknownRule.exec s).2 =
+      match s with
+      | c :: cs => if isDot c then some cs else none
+      | [] => none := by
+  have h1 := c07_unknown_steps s
+  refine ⟨h1, by omega, ?_⟩
+  rw [c07_unknownRule_exec]
+  cases s with
+  | nil => rfl
+  | cons c cs =>
+    simp only
+    split <;> rfl
+
+/-- a successful match of any of the seven rules is never empty: what is left is strictly shorter
+    (so the loop of `regex_tokeniser` advances). -/
+theorem C07_generated_match_nonempty (s r : Str) (t : Token) (n : Nat)
+    (h : c07_firstMatch c07_handRules s = (n, some (t, r))) :
+    t.val ++ r = s ∧ t.val ≠ [] ∧ r.length < s.length := by
+  have hl : lexOne s = some (t, r) := by rw [← c07_firstMatch_lexOne, h]
+  exact ⟨(c07_lexOne_split s r t hl).1, (c07_lexOne_split s r t hl).2, c07_lexOne_shorter s r t hl⟩
+
+/-! ### the tokeniser as the code runs it -/
+
+/-- one round of the loop of `regex_tokeniser` (try the parsed rules in order with the backtracking
+    matcher, first success wins, token value = matched prefix) is `lexOne`. -/
+theorem C07_model_agrees_lexOne (s : Str) : (c07_firstMatch c07_handRules s).2 = lexOne s :=
+  c07_firstMatch_lexOne s
+
+/-- AGREEMENT: `tokenise(value)` run with the regexes extracted from tokeniser.py today
+    (`c07_tokeniseRx`) returns, for every string, exactly the token list of the hand-written lexer
+    `tokenise` that all the theorems of C06 and C07 are about. -/
+theorem C07_tokeniseRx_agrees (s : Str) : c07_tokeniseRx s = tokenise s :=
+  c07_tokeniseRx_eq C07_generated_rules s
+
+/-- hence it never raises "Should be impossible" and never loops. -/
+theorem C07_tokeniseRx_total (s : Str) : ∃ ts, c07_tokeniseRx s = some ts := by
+  rw [C07_tokeniseRx_agrees]; exact C07_tokenise_total_all s
+
+/-- the fuel of the regex-driven loop is irrelevant (tokens and steps) once it covers the input. -/
+theorem C07_tokeniseRx_fuel_irrelevant (f g : Nat) (s : Str) (hf : s.length ≤ f) (hg : s.length ≤ g) :
+    c07_tokeniseRxFuel c07_handRules f s = c07_tokeniseRxFuel c07_handRules g s :=
+  c07_tokeniseRxFuel_stable f g s hf hg
+
+/-- all the attempts made at one position (failed ones included) cost at most 12 steps per character
+    of the token produced there, plus 36: a failing STRING attempt that scans to the end of the input
+    is followed by UNTERMINATED_STRING consuming that same stretch; every other failing attempt costs
+    a constant. -/
+theorem C07_position_cost (s r : Str) (t : Token) (h : lexOne s = some (t, r)) :
+    (c07_firstMatch c07_handRules s).1 ≤ 12 * t.val.length + 36 :=
+  c07_firstMatch_cost s r t h
+
+/-- COST, linear: the steps of ALL match attempts that `tokenise(value)` makes (every rule tried at
+    every token start, failed attempts included) are at most `48 * length`, for every string. -/
+theorem C07_tokeniseRx_cost_linear (s : Str) :
+    ∃ n, c07_tokeniseRxCost s = some n ∧ n ≤ 48 * s.length :=
+  c07_tokeniseRxCost_linear C07_generated_rules s
+
+/-- COST, "at most polynomially" as the property words it: `≤ 48 * (length + 1)^2`
+    (a consequence of the linear bound). -/
+theorem C07_tokeniseRx_cost_polynomial (s : Str) :
+    ∃ n, c07_tokeniseRxCost s = some n ∧ n ≤ 48 * (s.length + 1) ^ 2 := by
+  obtain ⟨n, h1, h2⟩ := c07_tokeniseRxCost_linear C07_generated_rules s
+  refine ⟨n, h1, Nat.le_trans h2 (Nat.mul_le_mul_left 48 ?_)⟩
+  have : s.length + 1 ≤ (s.length + 1) ^ 2 := by
+    rw [Nat.pow_two]; exact Nat.le_mul_of_pos_right _ (by omega)
+  omega
+
+/-! ### examples (non-vacuity) -/
+
+/-- the regex-driven tokeniser on the example of section 5: same tokens, 341 steps for 39 characters -/
+example : c07_tokeniseRx S!"p.a\\.b[style-name='it\\'s'] => 'x 12" =
+    tokenise S!"p.a\\.b[style-name='it\\'s'] => 'x 12" := by decide
+example : c07_tokeniseRxCost S!"p.a\\.b[style-name='it\\'s'] => 'x 12" = some 341 := by decide
+/-- an unterminated string: STRING fails after scanning to the end, UNTERMINATED_STRING rescans
+    (the hypotheses of `C07_position_cost` and `C07_generated_match_nonempty` are satisfiable) -/
+example : lexOne S!"'abc" = some (⟨.unterminated, S!"'abc"⟩, []) := by decide
+example : c07_firstMatch c07_handRules S!"'abc" =
+    (65, some (⟨.unterminated, S!"'abc"⟩, [])) := by decide
+/-- the parser: respellings give the same value, things outside the fragment are refused -/
+example : c07_parseRegex S!"(?:[0-9])+" = some c07_intRule := by decide
+example : c07_parseRegex S!"[\\s]+" = some c07_wsRule := by decide
+example : c07_parseRegex S!"\\d+" ≠ some c07_intRule := by decide
+example : c07_parseRegex S!"a{2}" = none ∧ c07_parseRegex S!"a*?" = none ∧ c07_parseRegex S!"(a" = none ∧
+    c07_parseRegex S!"^a" = none ∧ c07_parseRegex S!"(?:|a)*" = none ∧ c07_parseRegex S!"a**" = none := by
+  decide
+example : c07_parseRegex S!"\\s*HYPERLINK\\s+\"([^\"]*)\"" =
+    some (.seq (.star (.chr c07_ccSpace)) (.seq (.chr (.lit 'H')) (.seq (.chr (.lit 'Y'))
+      (.seq (.chr (.lit 'P')) (.seq (.chr (.lit 'E')) (.seq (.chr (.lit 'R')) (.seq (.chr (.lit 'L'))
+      (.seq (.chr (.lit 'I')) (.seq (.chr (.lit 'N')) (.seq (.chr (.lit 'K'))
+      (.seq (C07Regex.plus (.chr c07_ccSpace)) (.seq (.chr (.lit '"'))
+      (.seq (.star (.chr (.nset [('"', '"')]))) (.chr (.lit '"'))))))))))))))) := by decide
 
 end Mammoth
